@@ -90,6 +90,19 @@ def states(tier, seed):
 
 
 def mesh_of(spec, fam):
+    m, sym = _mesh_of(spec, fam)
+    if spec.get("pitch"):
+        # incidence of the whole surface: rotation about the spanwise axis through its first leading-edge node
+        th = np.radians(spec["pitch"])
+        x0, z0 = m[0, 0, 0], m[0, 0, 2]
+        dx, dz = m[:, :, 0] - x0, m[:, :, 2] - z0
+        m = m.copy()
+        m[:, :, 0] = x0 + dx * np.cos(th) + dz * np.sin(th)
+        m[:, :, 2] = z0 - dx * np.sin(th) + dz * np.cos(th)
+    return m, sym
+
+
+def _mesh_of(spec, fam):
     side = spec["side"]
     kw = {}
     if "span" in spec:
